@@ -268,6 +268,20 @@ func checkPrimariesGenerators(p *Program, r *Report, pre string) {
 	e1 := NewEngine(p)
 	e1.Opaque = opaqueSet(inv, toFn)
 	vFrom, err1 := single(p, e1, fromFn, nil)
+	// the To-generator evaluated with the same things uninterpreted (Inverse): what "To(r,g,b,white)"
+	// looks like when it is not a call of the public function but its body, reached through a shared helper
+	toInline := ""
+	{
+		e2 := NewEngine(p)
+		e2.Opaque = opaqueSet(inv)
+		if outs2, err2 := extract(p, e2, toFn, nil); err2 == nil {
+			for _, o := range outs2 {
+				if o.Kind == "return" && toInline == "" {
+					toInline = valKey(o.Ret)
+				}
+			}
+		}
+	}
 	good := err1 == nil
 	why := ""
 	if err1 != nil {
@@ -296,6 +310,9 @@ func checkPrimariesGenerators(p *Program, r *Report, pre string) {
 							break
 						}
 						toApp, ok := unIndex2(e1, g, c2, r2)
+						if (!ok || toApp.Fn != "call:ciexyz.TransformToXYZForXYYPrimaries") && toInline != "" && valKey(invApp.Args[0]) == toInline {
+							continue // the To-generator's own computation, written out (a shared method or helper inlined)
+						}
 						if !ok || toApp.Fn != "call:ciexyz.TransformToXYZForXYYPrimaries" || len(toApp.Args) != 4 {
 							good, why = false, "Inverse is not applied to TransformToXYZForXYYPrimaries(...): "+trunc(g.Key(), 200)
 							break
